@@ -665,6 +665,10 @@ func (h *memoHarness) runConcurrent(t *testing.T, c *MemoCase) *Outcome {
 	if res.StepCap {
 		return fail("no-progress", "step cap reached: %s", joinLines(res.Stuck, 8))
 	}
+	o.stat("lock_discipline_accesses_checked", res.Touches)
+	if len(res.Races) > 0 {
+		return fail("data-race:lock-discipline", "%s", joinLines(res.Races, 6))
+	}
 	if res.Deadlock {
 		return fail("deadlock", "no runnable task while clients are unfinished:\n%s", joinLines(res.Stuck, 8))
 	}
